@@ -40,6 +40,7 @@ type RuleOp struct {
 	OHC       *OHC   `json:"ohc,omitempty"`
 	BAR       uint8  `json:"bar,omitempty"`
 	IDLast    bool   `json:"id_last,omitempty"` // FAR: the FAR ID IE stands last in the grouped IE (IEs may come in any order)
+	Perm      uint32 `json:"perm,omitempty"`    // != 0: child IEs of the Create / Update IE in another order, drawn from this value
 	// QER
 	QFI  uint8 `json:"qfi,omitempty"`
 	Gate uint8 `json:"gate,omitempty"`
@@ -86,7 +87,38 @@ type Op struct {
 
 // ---------------------------------------------------------------- IE builders
 
+// IE renders the rule op.  With Perm != 0 the children of a Create / Update IE are put into another order, drawn from Perm:
+// a receiver must cope with any order of the IEs inside a grouped IE.
 func (r RuleOp) IE() *ie.IE {
+	i := r.ie()
+	if r.Perm == 0 || i == nil || len(i.ChildIEs) < 2 || (r.Verb != "create" && r.Verb != "update") {
+		return i
+	}
+	cs := append([]*ie.IE(nil), i.ChildIEs...)
+	x := r.Perm
+	for k := len(cs) - 1; k > 0; k-- {
+		x = x*1664525 + 1013904223
+		j := int((x >> 8) % uint32(k+1))
+		cs[k], cs[j] = cs[j], cs[k]
+	}
+	return ie.NewGroupedIE(i.Type, cs...)
+}
+
+// Permute gives every Create / Update op of a message a child order of its own, derived from seed (0 = leave as built).
+func Permute(rules []RuleOp, seed uint32) []RuleOp {
+	if seed == 0 {
+		return rules
+	}
+	out := append([]RuleOp(nil), rules...)
+	for i := range out {
+		if out[i].Perm == 0 && (out[i].Verb == "create" || out[i].Verb == "update") {
+			out[i].Perm = seed*2654435761 + uint32(i)*40503 + 1
+		}
+	}
+	return out
+}
+
+func (r RuleOp) ie() *ie.IE {
 	switch r.Kind {
 	case "PDR":
 		switch r.Verb {
